@@ -394,6 +394,10 @@ type vxC09RKCase struct {
 	Comps []vxC09Comp `json:"comps"` // in partition-key order
 	NVals int         `json:"nvals"` // number of bound values of the statement
 	Idx   []int       `json:"idx"`   // Idx[i] = position of component i among the bound values
+	// session part only: ClusterConfig.MaxRoutingKeyInfo (0: default) and when another statement with another key
+	// layout asks for its routing key (bit 0: before the first call, bit 1: between the first call and the re-bind)
+	Cache int `json:"cache,omitempty"`
+	Decoy int `json:"decoy,omitempty"`
 }
 
 var vxC09Types = []string{"int", "bigint", "smallint", "tinyint", "text", "varchar", "ascii", "blob", "boolean",
@@ -820,6 +824,22 @@ func TestVxC09RoutingKey(t *testing.T) {
 			}
 			if !bytes.Equal(bk, want) {
 				return fmt.Errorf("Batch.GetRoutingKey = %x, Cassandra's partition key of the first statement is %x;%s", bk, want, describe())
+			}
+
+			// keys are values: the keys handed out so far stay what they were when further keys are built
+			// (applications keep them, the token-aware policy hashes them later)
+			other := &routingKeyInfo{indexes: []int{1, 0}, types: []TypeInfo{NativeType{typ: TypeInt, proto: byte(c.Proto)}, NativeType{typ: TypeVarchar, proto: byte(c.Proto)}}}
+			for round := 0; round < 3; round++ {
+				ok, err := createRoutingKey(other, []interface{}{"a-rather-long-text-component-of-another-partition-key", 0x7a7a7a70 + round})
+				wantOther := cqlspec.RoutingKey([][]byte{{0x7a, 0x7a, 0x7a, byte(0x70 + round)}, []byte("a-rather-long-text-component-of-another-partition-key")})
+				if err != nil || !bytes.Equal(ok, wantOther) {
+					return fmt.Errorf("createRoutingKey of another key = %x, %v; want %x", ok, err, wantOther)
+				}
+				for name, key := range map[string][]byte{"createRoutingKey": got, "Query.GetRoutingKey": qk, "Batch.GetRoutingKey": bk} {
+					if !bytes.Equal(key, want) {
+						return fmt.Errorf("the key %s returned earlier has become %x after %d other key(s) were built; it was %x;%s", name, key, round+1, want, describe())
+					}
+				}
 			}
 
 			// and the token of that key, end to end
